@@ -71,6 +71,17 @@ def falsify(ctx, case: Dict) -> bool:
                 h.append(X.mk_rows(ch))
             if set(h.indicators) != {m.name for m in objs}:
                 bad = {"relation": "member-names-differ", "form": form}
+            if bad is None and hcfg.get("lifespan") is None:
+                # a Hexital rebuilt from Hexital.indicator_settings over the same schedule reads the same
+                stage = "indicator_settings"
+                h2 = hx.hexital(rows[:init_n], h.indicator_settings, hcfg)
+                h2.calculate()
+                for ch in case["chunks"]:
+                    h2.append(X.mk_rows(ch))
+                for nm_ in h.indicators:
+                    if nm_ not in h2.indicators or not E.same_value_list(h2.indicators[nm_].as_list(), h.indicators[nm_].as_list()):
+                        bad = {"relation": "rebuilt-from-indicator_settings-differs", "form": form}
+                        break
             stage = "standalone"
             raw0 = [(gen.to_ts(c.timestamp),) + (c.open, c.high, c.low, c.close, c.volume) for c in h.candles()]
             for s, tf, o in zip(specs, tfs, objs):
